@@ -88,6 +88,7 @@ type executor struct {
 	decisions int
 	wroteIndented bool
 	venv *venv
+	yamlDocs map[string][]*value // virtual path -> registered yaml documents (verifYamlDoc)
 	mapOrder int
 	mapPermuted int // map ranges given a non-identity order since the last verifSetMapOrder
 	mapSeen     int // map ranges of >= 2 entries executed since the last verifSetMapOrder(<0)
